@@ -552,9 +552,13 @@ Varable failures: {var_failed}
                 dt = np.diff(times)
                 if not (dt[0] == dt).all():
                     warn('New time is unstructured')
-                outf.TSTEP = int(
-                    (datetime.datetime(1900, 1, 1, 0) +
-                     dt[0]).strftime('%H%M%S'))
+                # HHMMSS where hours may exceed 23 (e.g., daily files)
+                dtsec = int(round(dt[0].total_seconds()))
+                dtsign = -1 if dtsec < 0 else 1
+                dtsec = abs(dtsec)
+                outf.TSTEP = dtsign * (
+                    dtsec // 3600 * 10000 + dtsec % 3600 // 60 * 100 +
+                    dtsec % 60)
 
         outf.updatemeta()
         return outf
